@@ -1,15 +1,29 @@
 #!/bin/sh
-# Build everything the checks need, offline, from files on disk only.
+# Build everything the claimed checks need, offline, from files on disk only:
+# the Coq closure of every claimed property (full .vo build) and the harness binaries of their legs.
 set -e
 cd "$(dirname "$0")"
 mkdir -p build evidence replays
-python3 -c "import sys; sys.path.insert(0,'lib'); import vlib; ok,log=vlib.coq_make(); print(log[-3000:] if not ok else 'coq build ok'); sys.exit(0 if ok else 1)"
-# warm the Go build cache and the harness binary
 python3 - <<'PY'
 import sys, os
 sys.path.insert(0, os.path.join(os.getcwd(), "lib"))
 import vlib
-ok, path, log = vlib.go_build("zunit")
-print("zunit build:", "ok" if ok else log[-3000:])
-sys.exit(0 if ok else 1)
+from props import PROPS
+from manifest_static import CLAIMED
+targets, bins = [], set()
+for pid in CLAIMED:
+    cfg = PROPS[pid]
+    targets.append("Props/%s.vo" % pid)
+    targets += list(cfg.get("coq", []))
+    for leg in cfg["legs"]:
+        bins.add((leg.get("binary", "zunit"), bool(leg.get("race"))))
+ok, log = vlib.coq_make(sorted(set(targets)))
+print("coq build ok (%d targets)" % len(set(targets)) if ok else log[-3000:])
+if not ok:
+    sys.exit(1)
+for b, race in sorted(bins):
+    ok, path, log = vlib.go_build(b, race=race)
+    print("%s%s build: %s" % (b, "-race" if race else "", "ok" if ok else log[-3000:]))
+    if not ok:
+        sys.exit(1)
 PY
